@@ -1,0 +1,22 @@
+//go:build verif
+
+package app
+
+import (
+	"github.com/pokt-network/pocket-core/codec"
+	appsKeeper "github.com/pokt-network/pocket-core/x/apps/keeper"
+	"github.com/pokt-network/pocket-core/x/auth"
+	govKeeper "github.com/pokt-network/pocket-core/x/gov/keeper"
+	nodesKeeper "github.com/pokt-network/pocket-core/x/nodes/keeper"
+	pocketKeeper "github.com/pokt-network/pocket-core/x/pocketcore/keeper"
+)
+
+// Read-only accessors used only by the /verif conformance harness (build tag "verif")
+// to project application state and to drive keeper entry points with an explicit context.
+
+func (app *PocketCoreApp) VerifAccountKeeper() auth.Keeper        { return app.accountKeeper }
+func (app *PocketCoreApp) VerifNodesKeeper() nodesKeeper.Keeper   { return app.nodesKeeper }
+func (app *PocketCoreApp) VerifAppsKeeper() appsKeeper.Keeper     { return app.appsKeeper }
+func (app *PocketCoreApp) VerifGovKeeper() govKeeper.Keeper       { return app.govKeeper }
+func (app *PocketCoreApp) VerifPocketKeeper() pocketKeeper.Keeper { return app.pocketKeeper }
+func (app *PocketCoreApp) VerifCodec() *codec.Codec               { return app.cdc }
